@@ -256,7 +256,7 @@ theorem C02_ternary_correct (c t f : Expr) (base : Nat) (cst : CState) (r : List
 /-! ### statements, end to end -/
 
 open EvalFilter.Exec in
-/-- **Assignments, if / else-if / else, while and return run exactly as the language defines.**  For every
+/-- **Assignments, if / else-if / else, while, foreach and return run exactly as the language defines.**  For every
     script built from these over value-producing expressions (any size and nesting), compiled without the
     optimizer, for every host object, environment and host-function table: the run ends with exactly the
     outcome of the big-step semantics `execSs` - the statements the language selects, in order, a loop
@@ -308,5 +308,73 @@ theorem C02_while_semantics (M : Machine) (obj : HostVal) (f : Nat) (c : Expr) (
       · simp only [h, ↓reduceIte]
         cases execSs M obj f body env o <;> rfl
       · simp only [h, Bool.false_eq_true, ↓reduceIte]
+
+open EvalFilter.Exec in
+/-- … and for `foreach`: the iterable is evaluated once and a scope is opened; then, turn after turn, the
+    next element (in the order `C02_iterNext_enumerates` fixes: positions of an array, characters of a
+    string, the sorted entries of a hash) is bound to the loop variable(s) and the body runs once; when
+    the elements are used up the scope is closed and the loop is over; `return` or an error in the body
+    ends the loop at once -/
+theorem C02_foreach_semantics (M : Machine) (obj : HostVal) (f : Nat) (idx x : Str) (body : List Stmt)
+    (it : Value) (k : Nat) (env : Env) (out : Str) :
+    execIter M obj (f + 1) idx x body it k env out =
+      (match iterNext it k with
+       | some (val, i) =>
+         match execSs M obj f body (if idx.isEmpty then env.declare x val else (env.declare x val).declare idx i) out with
+         | .normal env' o' => execIter M obj f idx x body it (k + 1) env' o'
+         | other => other
+       | none =>
+         match env.removeScope with
+         | none => .failed (.error "removeScope") env out
+         | some e => .normal e out) := by
+  simp only [execIter]
+  cases iterNext it k with
+  | none => simp only []; cases env.removeScope <;> rfl
+  | some p =>
+    obtain ⟨val, i⟩ := p
+    simp only []
+    cases execSs M obj f body (if idx.isEmpty then env.declare x val else (env.declare x val).declare idx i) out <;> rfl
+
+open EvalFilter.Exec in
+theorem C02_foreach_start (M : Machine) (obj : HostVal) (f : Nat) (idx x : Str) (v : Expr) (body : List Stmt)
+    (env : Env) (out : Str) :
+    execE M obj (f + 1) (.foreachE idx x v body) env out =
+      (match evalE M obj env v out with
+       | (.error e, o) => .failed e env o
+       | (.ok iv, o) =>
+         match resetVal iv with
+         | .ok it => execIter M obj f idx x body it 0 env.addScope o
+         | .error e => .failed e env.addScope o) := by
+  simp only [execE]
+  cases evalE M obj env v out with
+  | mk res o =>
+    cases res with
+    | error e => rfl
+    | ok iv => simp only []; cases resetVal iv <;> rfl
+
+/-! the hypotheses of `C02_program_correct` are met by real scripts: `s = 0; foreach i, x in [5, 7] { s = s + i * x; } return s;` -/
+section nonvacuous
+open EvalFilter.Exec
+private def progF : Program :=
+  [ .expr (.assign ['s'] (.intLit ['0'] 0)),
+    .expr (.foreachE ['i'] ['x'] (.arrayLit [.intLit ['5'] 5, .intLit ['7'] 7])
+      [ .expr (.assign ['s'] (.infix ['+'] (.ident ['s']) (.infix ['*'] (.ident ['i']) (.ident ['x'])))) ]),
+    .ret (.ident ['s']) ]
+private def compF : Compiled := match compileProgram progF with | .ok c => c | .error _ => ⟨[], [], []⟩
+example : pureSs progF = true := by decide
+example : compileProgram progF = .ok compF := by rfl
+example : ∃ e o, execSs (Api.newMachine compF false [] (fun _ => false)) .nilIface 10 progF {} [] = .returned (.int 7) e o :=
+  ⟨_, _, by rfl⟩
+/-- `k = 0; while (k < 3) { k = k + 1; } if (k == 3) { return 1; } else { return 2; }` -/
+private def progW : Program :=
+  [ .expr (.assign ['k'] (.intLit ['0'] 0)),
+    .expr (.whileE (.infix ['<'] (.ident ['k']) (.intLit ['3'] 3)) [ .expr (.assign ['k'] (.infix ['+'] (.ident ['k']) (.intLit ['1'] 1))) ]),
+    .expr (.ifE (.infix ['=', '='] (.ident ['k']) (.intLit ['3'] 3)) [ .ret (.intLit ['1'] 1) ] (some [ .ret (.intLit ['2'] 2) ])) ]
+private def compW : Compiled := match compileProgram progW with | .ok c => c | .error _ => ⟨[], [], []⟩
+example : pureSs progW = true := by decide
+example : compileProgram progW = .ok compW := by rfl
+example : ∃ e o, execSs (Api.newMachine compW false [] (fun _ => false)) .nilIface 12 progW {} [] = .returned (.int 1) e o :=
+  ⟨_, _, by rfl⟩
+end nonvacuous
 
 end EvalFilter.Props.C02
